@@ -4,6 +4,9 @@ from typing import Optional
 
 
 class Device(ABC):
+    # no id unless one is assigned; the elements do not call an __init__ here
+    _element_id = None
+
     def put(self, packet):
         """Put packet in this device.
         This function will be called in previous hop.
